@@ -218,3 +218,36 @@ pub fn check<B: StrictOps>(f: &P, loc: &mut Local) {
     loc.outcome(&(class, f.edges.len(), f.s.len(), f.t.len()));
     loc.sample(|| case());
 }
+
+/// The same evaluation with an interpreter written the way the crate's examples write it: splitting the
+/// argument lists with the borrowing iterator `IndexedCoproduct::iter()` (Vec backend only).
+pub fn check_with_iter_interpreter(f: &P, loc: &mut Local) {
+    if classify(f) != Class::Functional {
+        return;
+    }
+    use crate::onvec::{build_open, seg_sf};
+    use open_hypergraphs::array::vec::VecArray;
+    let k = f.s.len();
+    let sf_ = build_open(f);
+    if !f.edges.is_empty() {
+        loc.nontrivial();
+    }
+    loc.outcome(&(f.edges.len(), f.edges.iter().filter(|e| e.src.is_empty()).count()));
+    for vi in 0..2u64.pow(k as u32) {
+        let inputs: Vec<u64> = (0..k).map(|p| 1 + ((vi >> p) & 1) * 2 + p as u64).collect();
+        let (exp, _) = reference_eval(f, &inputs);
+        loc.trans(1);
+        let r = catch(|| {
+            open_hypergraphs::strict::eval::eval(&sf_, VecArray(inputs.clone()), |labels, args| {
+                let outs: Vec<Vec<u64>> = labels.0.iter().zip(args.iter()).map(|(l, a)| interp(l, a)).collect();
+                // an interpreter that silently loses an operation would produce too few output lists
+                seg_sf(&outs)
+            })
+            .map(|a| a.0)
+        });
+        match r {
+            Ok(Some(o)) if o == exp => {}
+            other => loc.violation("eval-with-iter-interpreter:wrong", json!({"diagram": f, "inputs": inputs, "got": format!("{:?}", other), "expected": exp})),
+        }
+    }
+}
